@@ -501,8 +501,25 @@ func (s *Sim) collect() {
 		}
 		if s.cfg.Prop == "C07" && s.viol == nil {
 			for _, n := range s.nodes {
-				if len(s.batchOwn[n.id]) > 0 {
+				vs := s.batchOwn[n.id]
+				if len(vs) == 0 {
+					continue
+				}
+				// A twin may only be forked when the crash DB equals the in-memory state. If one reaction
+				// contained two attests (e.g. the node's own soft votes completed a soft quorum and it
+				// cert-voted at once), the second persist happened while vote events of the first attest
+				// were still queued: memory is then legitimately ahead of the DB. Fork only after
+				// single-attest reactions.
+				single := true
+				for _, v := range vs[1:] {
+					if v.R.Round != vs[0].R.Round || v.R.Period != vs[0].R.Period || v.R.Step != vs[0].R.Step {
+						single = false
+					}
+				}
+				if single {
 					s.maybeForkTwin(n)
+				} else {
+					s.stat("twin_fork_skipped_multi_attest", 1)
 				}
 			}
 		}
